@@ -593,6 +593,7 @@ type roCall struct {
 	fn    int
 	seq   int
 	exp   string
+	got   string // cold readers: the concurrent result, compared with exp afterwards
 }
 
 type roOp struct {
@@ -1213,10 +1214,17 @@ func readers(s *simrt.Sim, top *asyncClient, sameCall bool, trace *[]string) []*
 		return s.Draw("recv", 64)
 	}
 	nm := nameHeap(roots...)
+	// cold: none of the planned calls (and no rendering of the heap) runs before the concurrent phase, so the clients meet
+	// whatever the read-only methods compute lazily on first use; the sequential expectation is taken afterwards
+	cold := s.Draw("cold-readers", 3) == 0
 	before := make([]string, len(roots))
-	for i, r := range roots {
-		before[i] = canon(r, nm)
-		*trace = append(*trace, "root "+short(before[i], 300))
+	if cold {
+		top.ops["probe:cold-readers"]++
+	} else {
+		for i, r := range roots {
+			before[i] = canon(r, nm)
+			*trace = append(*trace, "root "+short(before[i], 300))
+		}
 	}
 
 	k := 2 + s.Draw("clients", 3)
@@ -1281,14 +1289,19 @@ func readers(s *simrt.Sim, top *asyncClient, sameCall bool, trace *[]string) []*
 		}
 	}
 	// phase 1: sequential expectation
-	for i := range plans {
-		ghost := &asyncClient{id: 100 + i, ops: map[string]int{}}
-		for _, c := range plans[i] {
-			c.exp = c.exec(s, ghost, nm, false)
+	expect := func() {
+		for i := range plans {
+			ghost := &asyncClient{id: 100 + i, ops: map[string]int{}}
+			for _, c := range plans[i] {
+				c.exp = c.exec(s, ghost, nm, false)
+			}
+			top.calls = append(top.calls, ghost.calls...)
+			top.fails = append(top.fails, ghost.fails...)
+			*trace = append(*trace, fmt.Sprintf("client %d: %d calls, first %s", i+1, len(plans[i]), plans[i][0].describe(nm)))
 		}
-		top.calls = append(top.calls, ghost.calls...)
-		top.fails = append(top.fails, ghost.fails...)
-		*trace = append(*trace, fmt.Sprintf("client %d: %d calls, first %s", i+1, len(plans[i]), plans[i][0].describe(nm)))
+	}
+	if !cold {
+		expect()
 	}
 	// phase 2: concurrent clients
 	var wg simrt.WaitGroup
@@ -1308,13 +1321,33 @@ func readers(s *simrt.Sim, top *asyncClient, sameCall bool, trace *[]string) []*
 					prefix = "Object."
 				}
 				cl.ops[prefix+c.op.name]++
-				if got != c.exp {
+				if cold {
+					c.got = got // compared after the sequential pass
+				} else if got != c.exp {
 					cl.fail("reader-result", prefix+c.op.name, fmt.Sprintf("%s: concurrently %s, sequentially %s", c.describe(nm), short(got, 300), short(c.exp, 300)))
 				}
 			}
 		})
 	}
 	wg.Wait()
+	if cold {
+		// the baseline of phase 3 is the heap as the concurrent phase left it; the sequential pass must find the same results
+		for i, r := range roots {
+			before[i] = canon(r, nm)
+		}
+		expect()
+		for i, plan := range plans {
+			for _, c := range plan {
+				if c.got != c.exp {
+					prefix := "List."
+					if c.op.obj != nil {
+						prefix = "Object."
+					}
+					clients[i].fail("reader-result", prefix+c.op.name, fmt.Sprintf("%s: concurrently (first use) %s, sequentially afterwards %s", c.describe(nm), short(c.got, 300), short(c.exp, 300)))
+				}
+			}
+		}
+	}
 	// phase 3: the heap is what it was
 	for i, r := range roots {
 		if after := canon(r, nm); after != before[i] {
